@@ -18,7 +18,9 @@ CONSTANTS
   BugNoTruncate,   \* TRUE = store() does not truncate an existing longer file
   BugLeakOnError   \* TRUE = pinned tree: `?` after the backend was written into the MaybeUninit leaks it (defect #6)
 
-Loaders == {"load_full", "load_mem", "load_mmap", "mmap"}
+\* "encase" = MemCase::encase / From<S>: a structure built in memory, wrapped with the `None` backend (no file)
+Loaders == {"load_full", "load_mem", "load_mmap", "mmap", "encase"}
+NoBackend(l) == l \in {"load_full", "encase"}
 Causes == {"valid", "wrongtype", "wrongalign", "corrupt", "trunc", "empty", "missing", "bigalign"}
 \* rounding unit of the backing region's capacity
 RoundOf(l) == CASE l = "load_mem" -> 64 [] l = "load_mmap" -> 16 [] OTHER -> 1
@@ -87,11 +89,17 @@ Store ==
 
 \* Deserialize::load_mem pre-check: align_of::<Self>() > align_of::<MemoryAlignment>()
 PreCheck ==
-  /\ pcl = "start"
+  /\ pcl = "start" /\ loader # "encase"
   /\ IF loader = "load_mem" /\ cause = "bigalign"
      THEN Fin("AlignmentError") /\ UNCHANGED <<region, caseB, caseS, owner, advised>>
      ELSE pcl' = "stat" /\ UNCHANGED <<result, region, caseB, caseS, owner, advised>>
   /\ UNCHANGED <<prior, fileIs, loader, flags, cause, flen, readers, sDropped, order, steps, advised>>
+
+\* MemCase::encase(s): MemCase(s, MemBackend::None) - nothing is read, nothing is created
+Encase ==
+  /\ pcl = "start" /\ loader = "encase"
+  /\ caseS' = TRUE /\ pcl' = "ret"
+  /\ UNCHANGED <<prior, fileIs, loader, flags, cause, flen, region, advised, caseB, result, owner, readers, sDropped, order, steps>>
 
 \* metadata() / File::open
 Stat ==
@@ -180,7 +188,7 @@ DropB ==
   /\ UNCHANGED <<prior, fileIs, loader, flags, cause, flen, pcl, caseB, caseS, result, readers, sDropped, steps, advised>>
 
 MNext ==
-  \/ Store \/ PreCheck \/ Stat \/ Alloc \/ Advise \/ ReadFill \/ Wrap \/ Deser \/ Return
+  \/ Store \/ PreCheck \/ Encase \/ Stat \/ Alloc \/ Advise \/ ReadFill \/ Wrap \/ Deser \/ Return
   \/ Move \/ BoxIt \/ Unbox \/ SendTo \/ SendBack \/ ShareArc \/ ReaderEnter \/ ReaderLeave \/ Unshare
   \/ DropS \/ DropB
 
@@ -189,13 +197,15 @@ MNext ==
 StoreExact == pcl # "store" => fileIs = "exact"
 (* C08: the region a successful loader returns *)
 RegionSound ==
-  (result = "ok" /\ owner # "dropped" /\ loader # "load_full") =>
+  (result = "ok" /\ owner # "dropped" /\ ~NoBackend(loader)) =>
      /\ region.state = "live"
      /\ region.cap = EffLen + MPad(EffLen, RoundOf(loader))
      /\ region.cap >= EffLen
      /\ (loader \in {"load_mem", "load_mmap"} => region.tailzero)
 \* the region is live whenever anything can read through the structure
-LiveWhileReadable == (Owned \/ readers > 0) => (loader = "load_full" \/ region.state = "live")
+LiveWhileReadable == (Owned \/ readers > 0) => (NoBackend(loader) \/ region.state = "live")
+\* a case without a backend never has a region
+NoBackendNoRegion == NoBackend(loader) => region = NoRegion
 
 \* (beyond the listed properties) every requested advice was given before the region is used, and a mapping
 \* handed to the caller is read-only
